@@ -55,7 +55,8 @@ def count_acc(m):
     return None
 
 
-def check_acc(run, m):
+def check_acc(run, m, only_count=False):
+    """only_count: restrict to the validity counter (what the min_periods gate reads)"""
     fn = m.k.fn
     m.classify()
     accs = m.accumulators()
@@ -72,6 +73,8 @@ def check_acc(run, m):
         ups = a['updates']
         if all(u.op == 'Assign' for u in ups):
             continue    # cached-extreme class: C03 rules
+        if only_count and lid != n_id:
+            continue
         name = a['name']
         adds = [u for u in ups if u.block == 'add']
         rms = [u for u in ups if u.block == 'remove']
